@@ -10,7 +10,7 @@ def A(cond, name, n): return '  __CPROVER_assert(%s, "C09.%s.%s");' % (cond, n, 
 
 def obligations():
     obs = []
-    for on in ('', 'e', 'f', 'ef'):
+    for on in ('ef',):      # the contract requires both containers populated; callers are checked against that (delete.py, add.py)
         n = 'reorder.bu_%s' % (on or 'none')
         d = mcaps(v=2, e=2, f=2, c=2, fv=2, cv=2, out=2, inc=2) if on != 'ef' else mcaps(v=1, e=1, f=2, c=2, fv=2, cv=2, out=2, inc=2)
         d.update(CFG_V=0, CFG_E=int('e' in on), CFG_F=int('f' in on), CFG_DEFERRED=1, CFG_FAST=0)
@@ -26,7 +26,7 @@ def obligations():
                          call='  { struct EH hh; hh.idx_ = h; TopologyKernel__reorder_incident_halffaces(&m, hh); }',
                          post='\n'.join(post), op='reorder')
         obs.append(Ob(id='C09.' + n, props=['C09', 'C01', 'C12'], tu='kernel', tier='B', roots=[TK + '::reorder_incident_halffaces'],
-                      harness=mh, includes=['wf.h', 'view.h'], copies=[TK], defines=d, inline_vec=INLINE, unwind=6, covers=2, timeout=900, quick=(on in ('', 'e', 'f')),
+                      harness=mh, includes=['wf.h', 'view.h'], copies=[TK], defines=d, inline_vec=INLINE, unwind=6, covers=2, timeout=900, quick=False,
                       bounds=dict(vertices=2, edges=2, faces=2, cells=2, face_valence=2, cell_valence=2, incident_list=2),
                       note='real reorder_incident_halffaces against its caller-side contract; bottom-up kinds enabled: %s' % (on or 'none')))
     return obs
